@@ -106,10 +106,72 @@ func vc24Pool() *vc24PoolT {
 		add("long", long+"-a", long+"-b", "x"+long, strings.Repeat("M", 9000))
 		add("unicode", "\u00e9", "e\u0301", "日本語", "ünï", "😀", "Ω", "ß", "ss", "\u212a", "K")
 		add("prefix", "p", "pp", "ppp", "pppp")
+		// key lengths at the uvarint width boundaries of the length prefix (1->2 bytes at 128, 2->3 at 16384),
+		// at multiples of 128 (low seven length bits zero) and around the 4 KiB buffer of the log writer/reader
+		for _, n := range vc24BoundaryLens {
+			add("varintLen", vc24SizedKey(n, "v"))
+		}
 		add("empty", "")
 		vc24PoolV = p
 	})
 	return vc24PoolV
+}
+
+var vc24BoundaryLens = []int{127, 128, 129, 255, 256, 257, 383, 384, 385, 4095, 4096, 4097, 16383, 16384, 16385}
+
+// vc24SizedKey returns a deterministic key of exactly n bytes (n >= 1).
+func vc24SizedKey(n int, tag string) string {
+	k := fmt.Sprintf("%s%d:", tag, n)
+	if len(k) >= n {
+		return k[:n]
+	}
+	return k + strings.Repeat("z", n-len(k))
+}
+
+func vc24UvarintLen(x uint64) int {
+	n := 1
+	for x >= 0x80 {
+		x >>= 7
+		n++
+	}
+	return n
+}
+
+// vc24EntryBody is the body length of a log entry holding one id/key pair.
+func vc24EntryBody(ns vc24NS, id uint64, keyLen int) int {
+	return 1 + vc24UvarintLen(uint64(len(ns.Index))) + len(ns.Index) + vc24UvarintLen(uint64(len(ns.Field))) + len(ns.Field) +
+		1 + vc24UvarintLen(id) + vc24UvarintLen(uint64(keyLen)) + keyLen
+}
+
+// vc24BodyOfDelta recovers the body length of the single entry that made the log grow by delta bytes.
+func vc24BodyOfDelta(delta int64) int64 {
+	for w := int64(1); w <= 4; w++ {
+		if b := delta - w; b >= 0 && int64(vc24UvarintLen(uint64(b))) == w {
+			return b
+		}
+	}
+	return -1
+}
+
+// entry body lengths (uvarint width of the entry length prefix) and total sizes (4 KiB / 8 KiB buffers) worth hitting exactly
+var vc24BodyTargets = []int{126, 127, 128, 129, 255, 256, 4091, 4092, 4093, 4094, 4095, 4096, 4097, 8189, 8190, 8191, 8192, 16382, 16383, 16384, 16385}
+
+func vc24ClassifyEntry(c *vkit.Case, delta int64) bool {
+	b := vc24BodyOfDelta(delta)
+	hit := false
+	for _, tgt := range []int64{127, 128, 16383, 16384} {
+		if b == tgt {
+			c.Class("entryBody:%d", tgt)
+			hit = true
+		}
+	}
+	for _, tgt := range []int64{4095, 4096, 4097, 8191, 8192, 8193} {
+		if delta == tgt {
+			c.Class("entryTotal:%d", tgt)
+			hit = true
+		}
+	}
+	return hit
 }
 
 // ---------------------------------------------------------------------------
@@ -228,7 +290,11 @@ func (m *vc24Model) verifyAll(t vc24Fataler, who string, s TranslateStore) {
 }
 
 func vc24Open(t vc24Fataler, path string, primary TranslateStore) *TranslateFile {
-	s := NewTranslateFile(OptTranslateFileMapSize(vc24MapSize))
+	return vc24OpenSize(t, path, primary, vc24MapSize)
+}
+
+func vc24OpenSize(t vc24Fataler, path string, primary TranslateStore, mapSize int) *TranslateFile {
+	s := NewTranslateFile(OptTranslateFileMapSize(mapSize))
 	s.Path = path
 	s.PrimaryTranslateStore = primary
 	if err := s.Open(); err != nil {
@@ -243,11 +309,40 @@ func vc24Open(t vc24Fataler, path string, primary TranslateStore) *TranslateFile
 type vc24Gen struct {
 	pool   *vc24PoolT
 	window []string // a few generic keys this history keeps coming back to
+	// hint for entry-size targeting: namespace of the next batch and the id its first new key will probably get
+	hintNS vc24NS
+	hintID uint64
+	serial int
+}
+
+func (g *vc24Gen) hint(ns vc24NS, m *vc24Model) {
+	g.hintNS = ns
+	g.hintID = uint64(len(m.ids[ns]) + 1)
+	for id := range m.keys[ns] {
+		if id >= g.hintID {
+			g.hintID = id + 1
+		}
+	}
+}
+
+// boundaryKey returns a fresh key whose single-key entry (for the hinted namespace/id) has a body of exactly `body` bytes, if possible.
+func (g *vc24Gen) boundaryKey(body int) string {
+	g.serial++
+	tag := fmt.Sprintf("B%d_", g.serial)
+	best := 1
+	for l := 1; l <= body; l++ {
+		if b := vc24EntryBody(g.hintNS, g.hintID, l); b <= body {
+			best = l
+		} else {
+			break
+		}
+	}
+	return vc24SizedKey(best, tag)
 }
 
 func vc24NewGen(t *rapid.T) *vc24Gen {
 	p := vc24Pool()
-	g := &vc24Gen{pool: p}
+	g := &vc24Gen{pool: p, hintNS: vc24Namespaces[0], hintID: 1}
 	off := rapid.IntRange(0, len(p.generic)-12).Draw(t, "windowOffset")
 	g.window = p.generic[off : off+12]
 	return g
@@ -259,6 +354,11 @@ func (g *vc24Gen) key(t *rapid.T, label string) string {
 		return rapid.SampledFrom(g.window).Draw(t, label+"_w")
 	case 4:
 		return rapid.SampledFrom(g.pool.generic).Draw(t, label+"_g")
+	case 5:
+		// a key of generated length (content determined by the length, so the same length repeats the key)
+		n := rapid.OneOf(rapid.IntRange(1, 300), rapid.IntRange(120, 136), rapid.IntRange(4080, 4110), rapid.IntRange(16370, 16400),
+			rapid.SampledFrom([]int{128, 256, 384, 512, 640, 1024, 2048, 8192, 16384, 32768})).Draw(t, label+"_len")
+		return vc24SizedKey(n, "r")
 	default:
 		return rapid.SampledFrom(g.pool.special).Draw(t, label+"_s")
 	}
@@ -283,6 +383,10 @@ func (g *vc24Gen) batch(t *rapid.T, label string, bulk bool) []string {
 			keys = append(keys, keys[0], keys[len(keys)/2])
 		}
 		return keys
+	}
+	if rapid.IntRange(0, 7).Draw(t, label+"_boundaryEntry") == 0 {
+		// one fresh key sized so that the whole entry lands on a length-prefix / buffer boundary
+		return []string{g.boundaryKey(rapid.SampledFrom(vc24BodyTargets).Draw(t, label+"_body"))}
 	}
 	if rapid.IntRange(0, 5).Draw(t, label+"_family") == 0 {
 		fams := make([]string, 0, len(g.pool.families))
@@ -340,6 +444,7 @@ func TestVerifC24_Sequential(t *testing.T) {
 		var trace []string
 		nt := false
 		bulks := 0
+		huge := false
 		nOps := rapid.IntRange(1, 22).Draw(t, "nOps")
 		for i := 0; i < nOps; i++ {
 			label := fmt.Sprintf("op%d", i)
@@ -360,12 +465,34 @@ func TestVerifC24_Sequential(t *testing.T) {
 						}
 					}
 				}
+				g.hint(ns, m)
 				keys := g.batch(t, label, bulk)
+				if !bulk && !huge && rapid.IntRange(0, 59).Draw(t, label+"_huge") == 37 {
+					// enough keys in one namespace for three-byte id varints (ids above 16383) and five more table growths
+					huge = true
+					keys = make([]string, 16500)
+					for j := range keys {
+						keys[j] = fmt.Sprintf("h%d", j)
+					}
+					c.Class("idsOver16384")
+					nt = true
+				}
 				trace = append(trace, vc24BatchDesc(ns, keys))
 				before := len(m.ids[ns])
+				sizeBefore := s.size()
 				ids, err := vc24ToIDs(s, ns, keys)
 				if err != nil {
 					t.Fatalf("translate %s: %v", vc24BatchDesc(ns, keys), err)
+				}
+				if vc24ClassifyEntry(c, s.size()-sizeBefore) {
+					nt = true
+				}
+				for _, k := range keys {
+					if len(k) >= 128 && len(k)%128 == 0 {
+						c.Class("keyLenMultipleOf128")
+						nt = true
+						break
+					}
 				}
 				newKeys, repeatedNew := m.observe(t, "translate "+vc24BatchDesc(ns, keys), ns, keys, ids)
 				after := len(m.ids[ns])
@@ -430,6 +557,101 @@ func TestVerifC24_Sequential(t *testing.T) {
 			trace = trace[:10]
 		}
 		c.Sample(map[string]interface{}{"ops": trace})
+	})
+}
+
+// ---------------------------------------------------------------------------
+// map size edge: a log that fills the configured map exactly (or all but one byte)
+
+func TestVerifC24_MapEdge(t *testing.T) {
+	defer vkit.Flush()
+	rapid.Check(t, func(t *rapid.T) {
+		mapSize := rapid.SampledFrom([]int{4096, 5000, 8192, 32768}).Draw(t, "mapSize")
+		slack := rapid.SampledFrom([]int{0, 0, 1, 2}).Draw(t, "slack")
+		target := int64(mapSize - slack)
+		dir := vc24TempDir(t)
+		defer os.RemoveAll(dir)
+		ppath, rpath := filepath.Join(dir, "keys"), filepath.Join(dir, "replica")
+		s := vc24OpenSize(t, ppath, nil, mapSize)
+		defer func() { s.Close() }()
+		m := vc24NewModel()
+		c := vkit.NewCase().Key("c24edge", mapSize, slack)
+		defer c.Done()
+		var trace []string
+		serial := 0
+		put := func(ns vc24NS, keys []string) {
+			ids, err := vc24ToIDs(s, ns, keys)
+			if err != nil {
+				t.Fatalf("translate %s at log size %d (map size %d): %v", vc24BatchDesc(ns, keys), s.size(), mapSize, err)
+			}
+			m.observe(t, "translate "+vc24BatchDesc(ns, keys), ns, keys, ids)
+			trace = append(trace, vc24BatchDesc(ns, keys))
+		}
+		// generated filler, always leaving room for the closing entries
+		for i := 0; i < 12 && target-s.size() > 1500; i++ {
+			ns := rapid.SampledFrom(vc24Namespaces).Draw(t, fmt.Sprintf("ns%d", i))
+			n := rapid.IntRange(1, 4).Draw(t, fmt.Sprintf("n%d", i))
+			var keys []string
+			for j := 0; j < n; j++ {
+				serial++
+				keys = append(keys, vc24SizedKey(rapid.IntRange(1, 200).Draw(t, fmt.Sprintf("len%d_%d", i, j)), fmt.Sprintf("f%d_", serial)))
+			}
+			put(ns, keys)
+		}
+		// closing entries: single keys sized so that the log ends exactly at the target
+		ns := rapid.SampledFrom(vc24Namespaces).Draw(t, "lastNS")
+		g := &vc24Gen{pool: vc24Pool()}
+		for attempt := 0; attempt < 12 && s.size() < target; attempt++ {
+			remaining := target - s.size()
+			g.hint(ns, m)
+			if remaining > 600 {
+				// a big step first (any size), the exact fit in the last rounds
+				step := remaining - 300
+				if step > 10000 {
+					step = 10000
+				}
+				put(ns, []string{g.boundaryKey(int(step))})
+				continue
+			}
+			body := int64(-1)
+			for w := int64(1); w <= 2; w++ {
+				if b := remaining - w; b > 0 && int64(vc24UvarintLen(uint64(b))) == w {
+					body = b
+				}
+			}
+			k := g.boundaryKey(int(body))
+			if body > 0 && int64(vc24EntryBody(ns, g.hintID, len(k))) == body {
+				put(ns, []string{k})
+				continue
+			}
+			if remaining < 40 {
+				break // no exact fit possible any more
+			}
+			put(ns, []string{g.boundaryKey(13 + attempt%3)}) // a tiny entry shifts the remainder off the gap
+		}
+		exact := s.size() == target
+		c.ClassIf(exact, "logEndsAtTarget").ClassIf(!exact, "edgeMissed").Class("mapSize:%d", mapSize).Class("slack:%d", slack)
+		if s.size() > int64(mapSize) {
+			t.Fatalf("harness error: log grew to %d, beyond the map size %d", s.size(), mapSize)
+		}
+		m.verifyAll(t, fmt.Sprintf("log of %d bytes in a map of %d", s.size(), mapSize), s)
+		// a replica with the same map size takes the whole log
+		r := vc24OpenSize(t, rpath, &vc24CutStore{TranslateFile: s, cut: s.size()}, mapSize)
+		defer func() { r.Close() }()
+		if err := r.replicate(context.Background()); err != nil {
+			t.Fatalf("replicate a log of %d bytes into a replica with map size %d: %v", s.size(), mapSize, err)
+		}
+		if r.size() != s.size() {
+			t.Fatalf("replica holds %d of %d bytes", r.size(), s.size())
+		}
+		m.verifyAll(t, "replica with a full map", r)
+		if err := s.Close(); err != nil {
+			t.Fatalf("Close: %v", err)
+		}
+		s = vc24OpenSize(t, ppath, nil, mapSize)
+		m.verifyAll(t, fmt.Sprintf("after Close+Open of a log of %d bytes in a map of %d", s.size(), mapSize), s)
+		c.NT(exact)
+		c.Sample(map[string]interface{}{"mapSize": mapSize, "logSize": s.size(), "entries": len(trace)})
 	})
 }
 
@@ -609,11 +831,14 @@ func TestVerifC24_Replication(t *testing.T) {
 			if bulk {
 				bulks++
 			}
+			g.hint(ns, m)
 			keys := g.batch(t, label, bulk)
+			sizeBefore := p.size()
 			ids, err := vc24ToIDs(p, ns, keys)
 			if err != nil {
 				t.Fatalf("primary translate %s: %v", vc24BatchDesc(ns, keys), err)
 			}
+			vc24ClassifyEntry(c, p.size()-sizeBefore)
 			known := map[string]bool{}
 			for k := range m.ids[ns] {
 				known[k] = true
@@ -839,6 +1064,7 @@ func TestVerifC24_ReplicationLive(t *testing.T) {
 			switch rapid.SampledFrom([]string{"write", "write", "write", "attach", "attach", "catchUp", "reopenReplica", "reopenReplica"}).Draw(t, label) {
 			case "write":
 				ns := rapid.SampledFrom(vc24Namespaces).Draw(t, label+"_ns")
+				g.hint(ns, m)
 				keys := g.batch(t, label, false)
 				ids, err := vc24ToIDs(p, ns, keys)
 				if err != nil {
